@@ -56,6 +56,8 @@ CODE_HELPERS_EMITTING = {"_get_cattrs_deserialization_code": "structure_from_dic
 
 
 def run(repo: Repo, rep: Report, tier: str) -> None:
+    from sa.report import guarded as _guarded
+
     # ---------------------------------------------------------------- R5.1
     sels = [
         repo.func("types.strategies.response_strategy:ResponseStrategyResolver._get_primary_response"),
@@ -217,22 +219,22 @@ def run(repo: Repo, rep: Report, tier: str) -> None:
     _streaming_runtime(repo, rep)
     _stream_classification(repo, rep)
     _alias_classification(repo, rep)
-    rule_media_type_branches_exact(repo, rep, "R5.12")
+    _guarded(rep, rule_media_type_branches_exact, repo, rep, "R5.12")
     # R5.13: a discriminated union response keeps its discriminator on the way into the decoder                               [= R14.11]
     from rules.c14 import rule_metadata_from_the_given_type as _rmg513
 
     _rmg513(repo, rep, "R5.13")
-    rule_one_name_per_response(repo, rep, "R5.14")
-    rule_stream_decoder_follows_format(repo, rep, "R5.16")
-    rule_schemaless_media_type(repo, rep, "R5.17")
-    rule_range_primary_gets_an_arm(repo, rep, "R5.18")
+    _guarded(rep, rule_one_name_per_response, repo, rep, "R5.14")
+    _guarded(rep, rule_stream_decoder_follows_format, repo, rep, "R5.16")
+    _guarded(rep, rule_schemaless_media_type, repo, rep, "R5.17")
+    _guarded(rep, rule_range_primary_gets_an_arm, repo, rep, "R5.18")
     from rules._reuse import reuse as _reuse519
 
     _reuse519(repo, rep, "c06", {"R6.14": "R5.19"})  # an exact 2xx arm is never shadowed by the 2XX range arm
     # R5.15: a tag module is never taken for a model module of the same name (the body would be handed back as raw dicts through `cast`)  [= R13.9]
     from rules.c13 import rule_self_import_compares_the_package
 
-    rule_self_import_compares_the_package(repo, rep, "R5.15")
+    _guarded(rep, rule_self_import_compares_the_package, repo, rep, "R5.15")
 
     # ---------------------------------------------------------------- R5.6 streaming delegation
     wsr = hmod.classes["EndpointResponseHandlerGenerator"].methods["_write_strategy_based_return"]
